@@ -573,7 +573,7 @@ func runC15(r *Rng, n int, replay string) {
 			var ops []Op
 			for i := r.Range(1, 2); i > 0; i-- {
 				p := paths[r.Intn(len(paths))]
-				switch r.Pick(4, 3, 2, 2, 2) {
+				switch r.Pick(4, 3, 2, 2, 2, 2) {
 				case 0:
 					if p == "f" || p == "e/g" {
 						p = "d/x"
@@ -585,8 +585,10 @@ func runC15(r *Rng, n int, replay string) {
 					ops = append(ops, Op{Kind: "stat", P: p})
 				case 3:
 					ops = append(ops, Op{Kind: "chmod", P: p, Perm: 0o755})
-				default:
+				case 4:
 					ops = append(ops, Op{Kind: "rename", P: files[r.Intn(2)], Q: dests[r.Intn(len(dests))]})
+				default:
+					ops = append(ops, Op{Kind: "mkdirall", P: []string{"x/y", "d/x/y", "f/x", "e/g/h", "d/x", "x"}[r.Intn(6)], Perm: 0o755})
 				}
 			}
 			prog = append(prog, ops)
@@ -607,7 +609,7 @@ func runC15(r *Rng, n int, replay string) {
 						oc = append(oc, "CRename "+cStr(o.P)+" "+cStr(o.Q))
 						continue
 					}
-					oc = append(oc, map[string]string{"mkdir": "CMkdir ", "remove": "CRemove ", "stat": "CStat ", "chmod": "CChmod "}[o.Kind]+cStr(o.P))
+					oc = append(oc, map[string]string{"mkdir": "CMkdir ", "remove": "CRemove ", "stat": "CStat ", "chmod": "CChmod ", "mkdirall": "CMkdirAll "}[o.Kind]+cStr(o.P))
 				}
 				progC = append(progC, cList(oc))
 			}
